@@ -89,8 +89,7 @@ theorem step_good {a : CBA} {bs : List Block} {L : Ledger} (h : Inv a bs) (hL : 
     | none =>
       exact ⟨a, .unit, bs, rfl, h, hL, SameFrame.refl a, trivial⟩
     | some x =>
-      have hx : x < a.off + a.size := hv
-      obtain ⟨a', bs', e, hi, hfr, hu⟩ := free_inv h hx
+      obtain ⟨a', bs', e, hi, hfr, hu⟩ := free_inv h (x := x)
       simp only [CBA.step]
       rw [e]
       refine ⟨a', .unit, bs', rfl, hi, ?_, hfr, trivial⟩
@@ -108,10 +107,9 @@ theorem inv_alloc {a : CBA} {bs : List Block} (h : Inv a bs) {n : Nat} (hn : 0 <
 
 /-- `Inv` is preserved by `free` of any address of the range; the used blocks afterwards are the
     used blocks before minus the one starting at `x` -/
-theorem inv_free {a : CBA} {bs : List Block} (h : Inv a bs) {x : Nat}
-    (hx : x < a.off + a.size) :
+theorem inv_free {a : CBA} {bs : List Block} (h : Inv a bs) (x : Nat) :
     ∃ a' bs', a.free (some x) = .ok a' ∧ Inv a' bs' ∧ SameFrame a' a ∧
-      (∀ u, u.used = true → (u ∈ bs' ↔ u ∈ bs ∧ u.start ≠ x)) := free_inv h hx
+      (∀ u, u.used = true → (u ∈ bs' ↔ u ∈ bs ∧ u.start ≠ x)) := free_inv h
 
 /-- every operation of the history is inside the model's domain -/
 def ValidOps (off size : Nat) (ops : List Op) : Prop := ∀ op ∈ ops, op.Valid off size
@@ -132,7 +130,7 @@ theorem run_good {a : CBA} {bs : List Block} {L : Ledger} (h : Inv a bs) (hL : L
     · rw [hf1.1, hf1.2.1, hf1.2.2] at hs2; exact hs2
 
 /-- MAIN.  For every partition size, reserved offset, client offset, every history of
-    `alloc(n≥1)` / `free` (any address below the end of the range, `None`) and every choice oracle:
+    `alloc(n≥1)` / `free` (ANY address, `None`) and every choice oracle:
     the allocator never raises, every range it hands out lies inside the client's partition
     and overlaps no live range, and it answers "no space" only when no free run of the
     requested length exists (so freed ranges, merged with their free neighbours, are available
@@ -293,7 +291,7 @@ theorem free_coalesces_and_reusable {size pos off : Nat} {a a' : CBA} {L : Ledge
   have hlive := live_ranges_disjoint h
   have hb := hlive.1 _ hx
   simp only at hb
-  have hv : (Op.free (some x)).Valid off size := by show x < off + size; omega
+  have hv : (Op.free (some x)).Valid off size := trivial
   have e' : a.step (.free (some x)) = .ok (a', .unit) := by
     simp only [CBA.step, e, bind, Except.bind, pure, Except.pure]
   have h' := Reach.step h hv e'
@@ -309,14 +307,14 @@ theorem free_coalesces_and_reusable {size pos off : Nat} {a a' : CBA} {L : Ledge
 
 /-- freeing the same address twice: the second `free` changes nothing -/
 theorem double_free_noop {size pos off : Nat} {a a' : CBA} {L : Ledger}
-    (h : Reach size pos off a L) {x : Nat} (hx : x < off + size)
+    (h : Reach size pos off a L) {x : Nat}
     (e : a.free (some x) = .ok a') : a'.free (some x) = .ok a' := by
   obtain ⟨bs, hi, hL, ho, hs, hp⟩ := reach_inv h
-  obtain ⟨a1, bs1, e1, hi1, hf1, hu⟩ := free_inv hi (x := x) (by rw [ho, hs]; exact hx)
+  obtain ⟨a1, bs1, e1, hi1, hf1, hu⟩ := free_inv hi (x := x)
   rw [e] at e1
   simp only [Except.ok.injEq] at e1
   subst e1
-  refine free_noop hi1.toWInv (by rw [hf1.1, hf1.2.1, ho, hs]; exact hx) ?_
+  refine free_noop hi1.toWInv ?_
   intro u hu1 huu
   exact ((hu u huu).mp hu1).2
 
@@ -324,11 +322,11 @@ theorem double_free_noop {size pos off : Nat} {a a' : CBA} {L : Ledger}
 theorem free_not_live_noop {size pos off : Nat} {a : CBA} {L : Ledger}
     (h : Reach size pos off a L) :
     a.free none = .ok a ∧
-    ∀ x, x < off + size → (∀ m, (x, m) ∉ L) → a.free (some x) = .ok a := by
+    ∀ x, (∀ m, (x, m) ∉ L) → a.free (some x) = .ok a := by
   refine ⟨rfl, ?_⟩
-  intro x hx hno
+  intro x hno
   obtain ⟨bs, hi, hL, ho, hs, hp⟩ := reach_inv h
-  refine free_noop hi.toWInv (by rw [ho, hs]; exact hx) ?_
+  refine free_noop hi.toWInv ?_
   intro u hu huu e
   refine hno u.size ((hL x u.size).mpr ?_)
   have : u = ⟨x, u.size, true⟩ := by cases u; simp_all
